@@ -788,6 +788,16 @@ def m_dur_add(I, st, args, dty, site):
     o = site_obl(I, site, 'STDPRE')
     I.record(o, sh + 1 <= U64MAX, st, f'Duration + Duration: seconds up to {sh + 1} overflow u64' if sh + 1 > U64MAX else None,
              cause='Duration add overflow')
+    # exact sum: nanoseconds carry into the seconds
+    u64 = ty_of_name('u64')
+    n = I.binop(st, 'Add', ('i', a[2][1][1], 'u64'), ('i', b[2][1][1], 'u64'), u64, None, None)
+    s0 = I.binop(st, 'Add', ('i', a[2][0][1], 'u64'), ('i', b[2][0][1], 'u64'), u64, None, None)
+    if n[0] == 'i' and s0[0] == 'i' and sh + 1 <= U64MAX:
+        q = I.binop(st, 'Div', n, const_int(1_000_000_000, 'u64'), u64, None, None)
+        r = I.binop(st, 'Rem', n, const_int(1_000_000_000, 'u64'), u64, None, None)
+        secs = I.binop(st, 'Add', s0, q, u64, None, None)
+        if q[0] == 'i' and r[0] == 'i' and secs[0] == 'i':
+            return [(st, ('s', DUR, (secs, ('i', r[1], 'u32')), None))]
     return [(st, dur_top(I, st, 'sum'))]
 
 
